@@ -18,6 +18,7 @@ package main
 
 import (
 	"fmt"
+	"go/constant"
 	"go/token"
 	"go/types"
 	"sort"
@@ -602,6 +603,102 @@ func tokEvents(os []string) string {
 	return strings.Join(out, " or ")
 }
 
+// ---- R-MAVEN-NUMTOK: a token is a number item exactly when strconv parses the whole token ---------------
+//
+// ComparableVersion makes every run of digits a number item, whatever its length. In the code an
+// element is marked as a number by storing the constant true in its flag; that store must be dominated
+// by the error-free edge of a strconv parse of the token (Atoi, ParseInt, ParseUint), and the element
+// built on the other side must be dominated by its failing edge. A hand-written recogniser in between
+// (which can add conditions of its own, such as a maximal length) is not decided and reported.
+func ruleMavenNumTok(p *Prog, r *Report) {
+	var e *Eco
+	for _, x := range p.Ecos {
+		if x.Name == "maven" {
+			e = x
+		}
+	}
+	if e == nil {
+		return
+	}
+	key := "maven: a token is a number item exactly when strconv parses it"
+	st, _ := e.VerT.Underlying().(*types.Struct)
+	var elemT *types.Struct
+	for i := 0; st != nil && i < st.NumFields(); i++ {
+		if sl, ok := st.Field(i).Type().Underlying().(*types.Slice); ok {
+			if es, ok := sl.Elem().Underlying().(*types.Struct); ok {
+				elemT = es
+			}
+		}
+	}
+	if elemT == nil {
+		r.Und("R-MAVEN-NUMTOK", key, p.FnPos(e.NewVer), "element type of the item list not found")
+		r.Floor("R-MAVEN-NUMTOK", 1)
+		return
+	}
+	nTrue, nOK := 0, 0
+	var bad []string
+	for _, fn := range p.RepoReachable(e.NewVer) {
+		for _, b := range fn.Blocks {
+			for _, ins := range b.Instrs {
+				s, ok := ins.(*ssa.Store)
+				if !ok {
+					continue
+				}
+				fa, ok := s.Addr.(*ssa.FieldAddr)
+				if !ok {
+					continue
+				}
+				pt, ok := fa.X.Type().Underlying().(*types.Pointer)
+				if !ok || !types.Identical(pt.Elem().Underlying(), elemT) || !isBoolType(elemT.Field(fa.Field).Type()) {
+					continue
+				}
+				c, isC := s.Val.(*ssa.Const)
+				if !isC || c.Value == nil || !constant.BoolVal(c.Value) {
+					if !isC {
+						bad = append(bad, fn.Name()+": the number flag of an item is computed ("+p.Pos(s.Pos())+"), not set where a parse of the token has succeeded")
+					}
+					continue
+				}
+				nTrue++
+				found := false
+				for _, b2 := range fn.Blocks {
+					for _, i2 := range b2.Instrs {
+						call, ok := i2.(*ssa.Call)
+						if !ok {
+							continue
+						}
+						g := call.Call.StaticCallee()
+						if g == nil {
+							continue
+						}
+						switch extName(g) {
+						case "strconv.Atoi", "strconv.ParseInt", "strconv.ParseUint":
+							if errNilEdgeDominates(call, b) {
+								found = true
+							}
+						}
+					}
+				}
+				if found {
+					nOK++
+				} else {
+					bad = append(bad, fn.Name()+": an item is marked as a number ("+p.Pos(s.Pos())+") where no strconv parse of the token is known to have succeeded: a recogniser of its own can refuse digit runs that are numbers (long ones, for instance), which then rank as qualifiers below every number")
+				}
+			}
+		}
+	}
+	sort.Strings(bad)
+	switch {
+	case len(bad) > 0:
+		r.Und("R-MAVEN-NUMTOK", key, p.FnPos(e.NewVer), bad[0])
+	case nTrue == 0:
+		r.Und("R-MAVEN-NUMTOK", key, p.FnPos(e.NewVer), "no store of the number flag found in the constructor's call tree")
+	default:
+		r.Ok("R-MAVEN-NUMTOK", key, p.FnPos(e.NewVer), fmt.Sprintf("%d store(s) of the number flag, each dominated by the error-free edge of a strconv parse", nOK))
+	}
+	r.Floor("R-MAVEN-NUMTOK", 1)
+}
+
 func init() {
-	register("C12", "", ruleMavenToken)
+	register("C12", "", ruleMavenToken, ruleMavenNumTok)
 }
